@@ -192,6 +192,32 @@ func runC14(c *Collector, r *Rng, thorough bool) {
 		if e, ok := pv.(*ecdsa.PrivateKey); !ok || !e.Equal(priv) {
 			c.Fail("C14/private-differs", "private key after the round trip is not Equal to the original", rep)
 		}
+		// key_ops says what the key may be used for, not whether it converts: with any key_ops value the round-tripped
+		// COSE_Key still converts back to the same public and private halves
+		for _, ops := range [][]cose.KeyOp{{cose.KeyOpSign}, {cose.KeyOpVerify}, {cose.KeyOp(3)}, {}} {
+			kk := *dp.key
+			kk.Ops = ops
+			bo, err := kk.MarshalCBOR()
+			if err != nil {
+				c.Fail("C14/marshal-refused", fmt.Sprintf("MarshalCBOR refused a key with key_ops %v: %v", ops, err), rep)
+				continue
+			}
+			do := decodeCase(c, "unmarshal-private-ops/"+class, "DKey", bo)
+			if do.err != nil || do.paniced {
+				c.Fail("C14/unmarshal-refused", fmt.Sprintf("own serialisation of a private key with key_ops %v refused: %v", ops, do.err), rep)
+				continue
+			}
+			op, obs, pv, err, _ := execKeyPrivate(do.key)
+			addCase(c, "private-ops/"+class, op, obs, err == nil)
+			if e, ok := pv.(*ecdsa.PrivateKey); err != nil || !ok || !e.Equal(priv) {
+				c.Fail("C14/private-differs", fmt.Sprintf("with key_ops %v the private key does not convert back to an Equal key: %v", ops, err), rep)
+			}
+			op, obs, pb, err, _ := execKeyPublic(do.key)
+			addCase(c, "public-ops/"+class, op, obs, err == nil)
+			if e, ok := pb.(*ecdsa.PublicKey); err != nil || !ok || !e.Equal(&priv.PublicKey) {
+				c.Fail("C14/public-differs", fmt.Sprintf("with key_ops %v the public half does not convert back to an Equal key: %v", ops, err), rep)
+			}
+		}
 		// signer from the COSE_Key, verifier from its public counterpart
 		op, obs, sg, err, _ := execKeySigner(dp.key)
 		addCase(c, "signer/"+class, op, obs, err == nil)
@@ -795,6 +821,14 @@ func runC17(c *Collector, r *Rng, thorough bool) {
 			}
 			msg := r.Bytes(1 + r.Intn(100))
 			sig, serr := sg.Sign(r, msg)
+			if serr == nil {
+				keep := append([]byte{}, sig...)
+				if _, err := sg.Sign(r, append([]byte("another message "), msg...)); err == nil && !bytes.Equal(sig, keep) {
+					c.Fail("C17/earlier-signature-changed", "a signature made through a crypto.Signer changed when the same signer signed another message", map[string]any{"curve": cv.Params().Name, "alg": int64(a)})
+					sig = keep
+				}
+				rec.digests = rec.digests[:1]
+			}
 			c.Eval("opaque-signer-digest/"+cv.Params().Name, fmt.Sprint(a), true)
 			rep := map[string]any{"curve": cv.Params().Name, "alg": int64(a), "msg": hx(msg)}
 			if serr != nil {
@@ -833,16 +867,31 @@ func runC17(c *Collector, r *Rng, thorough bool) {
 			c.Fail("C17/no-digest-interface", "built-in RSA/ECDSA signer or verifier lacks the digest entry point", map[string]any{"alg": k.alg.String()})
 			continue
 		}
+		var earlier []heldSig
 		for i := 0; i < n; i++ {
 			msg := r.Bytes(r.Intn(200))
 			digest := digestOf(algHash(k.alg), msg)
 			rep := map[string]any{"alg": k.alg.String(), "msg": hx(msg)}
 			s1, e1 := sg.Sign(r, msg)
+			s1copy := append([]byte{}, s1...)
 			s2, e2 := ds.SignDigest(r, digest)
 			c.Eval("digest-equivalence/"+k.alg.String(), hx(msg), true)
 			if e1 != nil || e2 != nil {
 				c.Fail("C17/digest-sign-failed", fmt.Sprintf("%v / %v", e1, e2), rep)
 				continue
+			}
+			// a signature a caller holds is its own: the signer's later work does not rewrite it
+			earlier = append(earlier, heldSig{s1, s1copy, msg}, heldSig{s2, append([]byte{}, s2...), msg})
+			for _, h := range earlier {
+				if !bytes.Equal(h.sig, h.copy) {
+					c.Fail("C17/earlier-signature-changed", fmt.Sprintf("a signature returned earlier by this signer changed when it signed again: was %x, now %x", trimTo(h.copy, 24), trimTo(h.sig, 24)), rep)
+					earlier = nil
+					break
+				} else if vf.Verify(h.msg, h.sig) != nil {
+					c.Fail("C17/digest-equivalence", "a signature returned earlier no longer verifies for its message", rep)
+					earlier = nil
+					break
+				}
 			}
 			for name, s := range map[string][]byte{"Sign": s1, "SignDigest": s2} {
 				if vf.Verify(msg, s) != nil || dv.VerifyDigest(digest, s) != nil {
@@ -861,6 +910,8 @@ func runC17(c *Collector, r *Rng, thorough bool) {
 		}
 	}
 }
+
+type heldSig struct{ sig, copy, msg []byte }
 
 // recordingSigner: a crypto.Signer wrapping an ECDSA key (so that it is not *ecdsa.PrivateKey) that records what it is asked to sign
 type recordingSigner struct {
